@@ -175,6 +175,8 @@ def run(tier, seed):
            "metrics": len(metrics), "function_calls": ncalls, "scales": us, "exhaustive": False,
            "rule": "behaviour = (integer metric tensor, path through the representation graph); all valid metrics of the "
                    "configured box x all paths of the configured depth; each replayed in tools and laue for 3 scale factors"}
+    if tier == "thorough":
+        common.apalache_obligations(wd, ["AdjugateInverse"], cov)
     return v.finish("model_checking", cov, ASSUME)
 
 
